@@ -11,6 +11,7 @@ import (
 	"math"
 	"math/bits"
 	"strings"
+	"sync/atomic"
 )
 
 type sortKind uint8
@@ -52,6 +53,45 @@ type Term struct {
 	val  uint64 // op=="const": BV bits / Bool 0|1 / FP bits
 	p1   int    // extract hi / extend amount
 	p2   int    // extract lo
+	h1   uint64 // structural hash (0 = not computed)
+	h2   uint64
+	ev   uint64 // memoised evaluation (valid when evEp == current epoch)
+	evEp uint64
+}
+
+var evalEpoch uint64 // atomically incremented; a term belongs to one worker
+
+// hash returns a 128-bit structural hash of the term (memoised).
+func (t *Term) hash() (uint64, uint64) {
+	if t.h1 != 0 || t.h2 != 0 {
+		return t.h1, t.h2
+	}
+	var a, b uint64 = 14695981039346656037, 0x9E3779B97F4A7C15
+	mix := func(x uint64) {
+		a ^= x
+		a *= 1099511628211
+		b = (b ^ x) * 0xff51afd7ed558ccd
+		b ^= b >> 29
+	}
+	for _, c := range []byte(t.op) {
+		mix(uint64(c))
+	}
+	mix(uint64(t.sort.k)<<8 | uint64(t.sort.w))
+	mix(t.val)
+	mix(uint64(t.p1)<<16 | uint64(t.p2))
+	for _, c := range []byte(t.name) {
+		mix(uint64(c))
+	}
+	for _, x := range t.args {
+		x1, x2 := x.hash()
+		mix(x1)
+		mix(x2 ^ 0x5bd1e995)
+	}
+	if a == 0 && b == 0 {
+		a = 1
+	}
+	t.h1, t.h2 = a, b
+	return a, b
 }
 
 func (t *Term) isConst() bool { return t.op == "const" }
@@ -418,45 +458,59 @@ func evalOp(t *Term, arg func(int) uint64) (uint64, bool) {
 
 // evalTerm evaluates t under model (variable name -> raw bits); variables
 // not in the model default to zero.  ok=false if some operator could not be
-// evaluated (unspecified result).
+// evaluated (unspecified result).  The memo argument is kept for API
+// compatibility; memoisation uses epoch stamps in the terms.
 func evalTerm(t *Term, model map[string]uint64, memo map[*Term]uint64) (uint64, bool) {
-	if v, ok := memo[t]; ok {
-		return v, true
-	}
+	ep := atomic.AddUint64(&evalEpoch, 1)
+	return evalRec(t, model, ep)
+}
+
+// evalMany evaluates several terms under one model with shared memoisation.
+func newEvalEpoch() uint64 { return atomic.AddUint64(&evalEpoch, 1) }
+
+func evalRec(t *Term, model map[string]uint64, ep uint64) (uint64, bool) {
 	switch t.op {
 	case "const":
 		return t.val, true
 	case "var":
 		return model[t.name] & mask64(t.sort), true
 	}
-	vals := make([]uint64, len(t.args))
-	// short-circuit ite to avoid evaluating unspecified branches
+	if t.evEp == ep {
+		return t.ev, true
+	}
 	if t.op == "ite" {
-		c, ok := evalTerm(t.args[0], model, memo)
+		c, ok := evalRec(t.args[0], model, ep)
 		if !ok {
 			return 0, false
 		}
 		var v uint64
 		if c == 1 {
-			v, ok = evalTerm(t.args[1], model, memo)
+			v, ok = evalRec(t.args[1], model, ep)
 		} else {
-			v, ok = evalTerm(t.args[2], model, memo)
+			v, ok = evalRec(t.args[2], model, ep)
 		}
 		if ok {
-			memo[t] = v
+			t.ev, t.evEp = v, ep
 		}
 		return v, ok
 	}
+	var vals [3]uint64
+	var vs []uint64
+	if len(t.args) <= 3 {
+		vs = vals[:len(t.args)]
+	} else {
+		vs = make([]uint64, len(t.args))
+	}
 	for i, a := range t.args {
-		v, ok := evalTerm(a, model, memo)
+		v, ok := evalRec(a, model, ep)
 		if !ok {
 			return 0, false
 		}
-		vals[i] = v
+		vs[i] = v
 	}
-	v, ok := evalOp(t, func(i int) uint64 { return vals[i] })
+	v, ok := evalOp(t, func(i int) uint64 { return vs[i] })
 	if ok {
-		memo[t] = v
+		t.ev, t.evEp = v, ep
 	}
 	return v, ok
 }
@@ -547,18 +601,31 @@ func (t *Term) String() string {
 	return sb.String()
 }
 
-// collectVars appends the variables of t (deduplicated through seen).
+// collectVars appends the variables of t (deduplicated; the seen map is
+// unused, kept for API compatibility: visiting uses epoch stamps).
 func collectVars(t *Term, seen map[*Term]bool, out *[]*Term) {
-	if seen[t] {
+	ep := atomic.AddUint64(&evalEpoch, 1)
+	collectVarsRec(t, ep, out)
+}
+
+func collectVarsRec(t *Term, ep uint64, out *[]*Term) {
+	switch t.op {
+	case "const":
 		return
-	}
-	seen[t] = true
-	if t.op == "var" {
+	case "var":
+		if t.evEp == ep {
+			return
+		}
+		t.evEp = ep
 		*out = append(*out, t)
 		return
 	}
+	if t.evEp == ep {
+		return
+	}
+	t.evEp = ep
 	for _, a := range t.args {
-		collectVars(a, seen, out)
+		collectVarsRec(a, ep, out)
 	}
 }
 
